@@ -32,7 +32,7 @@ pub fn exec(sc: &Scenario, st: &mut Stats) -> Option<Violation> {
     let spec = sc.nodes[0];
     let kind = spec.kind;
     let window = spec.params.window(kind);
-    let mut nodes: Vec<Option<(Box<dyn Sut>, u64, bool)>> = vec![Some((build_spec(&spec), 0, false))];
+    let mut nodes: Vec<Option<(Box<dyn Sut>, u64, bool)>> = sc.nodes.iter().map(|s| Some((build_spec(s), 0, false))).collect();
     let mut last_fault = Fault::Clean;
     let mut digest = 0u64;
     let mut step = 0usize;
@@ -43,7 +43,19 @@ pub fn exec(sc: &Scenario, st: &mut Stats) -> Option<Violation> {
             st.op(op);
             let n = op.node();
             match op {
-                Op::Fork { src, dst } => {
+                Op::Fork { src, dst, into: true } if src != dst && matches!(nodes.get(*src), Some(Some(_))) && matches!(nodes.get(*dst), Some(Some(_))) => {
+                    what = "clone_from()";
+                    let mut d = nodes[*dst].take().unwrap();
+                    let s = nodes[*src].as_ref().unwrap();
+                    if on(Side::Subject, || d.0.clone_from_sut(s.0.as_ref())) {
+                        d.1 = s.1;
+                        d.2 = s.2;
+                        st.bump("clone_from_calls");
+                    }
+                    nodes[*dst] = Some(d);
+                    continue;
+                }
+                Op::Fork { src, dst, .. } => {
                     what = "clone()";
                     if let Some(Some((s, c, r))) = nodes.get(*src) {
                         let f = on(Side::Subject, || s.fork());
@@ -261,7 +273,7 @@ fn grid_a(idx: u64, specs: &[NodeSpec], cyc: &[(Input, Fault)], offsets: u64) ->
             3 => ops.push(Op::Format { n: 0 }),
             5 => ops.push(Op::Save { n: 0 }),
             7 => {
-                ops.push(Op::Fork { src: 0, dst: 1 });
+                ops.push(Op::Fork { src: 0, dst: 1, into: j % 22 == 7 });
                 ops.push(Op::Feed { n: 1, x, f });
                 ops.push(Op::Format { n: 1 });
             }
@@ -274,7 +286,21 @@ fn grid_a(idx: u64, specs: &[NodeSpec], cyc: &[(Input, Fault)], offsets: u64) ->
             _ => {}
         }
     }
-    Scenario { property: PROP.into(), stage: "grid-a".into(), nodes: vec![spec], ops, workers: 0 }
+    // finally: clone_from between instances with DIFFERENT parameters, both directions (node 2 is a
+    // same-kind instance with other periods that was fed a few ticks)
+    let mut alt = spec;
+    alt.params.p1 = if spec.params.p1 > 3 { spec.params.p1 - 3 } else { spec.params.p1 + 5 };
+    alt.params.p2 += 1;
+    for j in 0..3 {
+        ops.push(Op::Feed { n: 2, x: clean_tick(j, 0), f: Fault::Clean });
+    }
+    ops.push(Op::Fork { src: 2, dst: 1, into: true });
+    ops.push(Op::Feed { n: 1, x: clean_tick(4, 0), f: Fault::Clean });
+    ops.push(Op::Format { n: 1 });
+    ops.push(Op::Fork { src: 0, dst: 2, into: true });
+    ops.push(Op::Feed { n: 2, x: clean_tick(5, 0), f: Fault::Clean });
+    ops.push(Op::Save { n: 2 });
+    Scenario { property: PROP.into(), stage: "grid-a".into(), nodes: vec![spec, spec, alt], ops, workers: 0 }
 }
 
 /// grid B: every (cursor state s in 0..3*sum+3) x (fault value): s clean ticks, the fault value,
@@ -312,7 +338,7 @@ fn grid_b(idx: u64, specs: &[NodeSpec], starts: &[u64], cyc: &[(Input, Fault)]) 
     ops.push(Op::Feed { n: 0, x: fx, f: ff });
     ops.push(Op::Format { n: 0 });
     ops.push(Op::Save { n: 0 });
-    ops.push(Op::Fork { src: 0, dst: 1 });
+    ops.push(Op::Fork { src: 0, dst: 1, into: false });
     ops.push(Op::Feed { n: 1, x: clean_tick(s + 1, shape), f: Fault::Clean });
     ops.push(Op::Feed { n: 0, x: clean_tick(s + 1, shape), f: Fault::Clean });
     ops.push(Op::Feed { n: 0, x: fx, f: ff });
@@ -391,12 +417,21 @@ pub fn generate(rng: &mut Rng, tier: Tier) -> Scenario {
         }
         if rng.chance(0.005) && forks < 3 {
             forks += 1;
-            ops.push(Op::Fork { src: 0, dst: forks });
+            ops.push(Op::Fork { src: 0, dst: forks, into: false });
+        } else if rng.chance(0.004) && forks > 0 {
+            // clone_from into a live clone, or from the differently-parameterised sibling (node 4)
+            if rng.chance(0.5) {
+                ops.push(Op::Fork { src: 0, dst: rng.range(1, forks), into: true });
+            } else {
+                ops.push(Op::Fork { src: 4, dst: rng.range(1, forks), into: true });
+            }
         }
     }
     ops.push(Op::Format { n: 0 });
     ops.push(Op::Save { n: 0 });
-    Scenario { property: PROP.into(), stage: "seeded".into(), nodes: vec![spec], ops, workers: 0 }
+    let mut alt = gen::random_spec(rng, tier, Some(&[kind]));
+    alt.mode = spec.mode;
+    Scenario { property: PROP.into(), stage: "seeded".into(), nodes: vec![spec, spec, spec, spec, alt], ops, workers: 0 }
 }
 
 pub fn run(tier: Tier) -> i32 {
